@@ -428,6 +428,14 @@ func runLoopback(sc *loopScenario, seed int64) ([]map[string]any, error) {
 			if sc.SizeSeq {
 				size = sc.Sizes[k%len(sc.Sizes)]
 			}
+			if size < 0 {
+				// -(d+1): the largest payload whose frame is d bytes below the 4 MiB limit, for this sender and receiver
+				fr, err := remoting.VerifEncodeFrame(nil, mailbox.NewEnvelop(false, ctx.Ref(), target, newRmsg(id, "tell", 0, rng)))
+				if err != nil {
+					return
+				}
+				size = 4<<20 - (len(fr) - 4) - (-size - 1)
+			}
 			if sc.AskEvery > 0 && k%sc.AskEvery == sc.AskEvery-1 {
 				m := newRmsg(id, "ask", size, rng)
 				rec.ev(map[string]any{"e": "Sent", "src": "/" + name, "dst": dst, "m": int(id), "k": "ask"})
@@ -679,7 +687,7 @@ func checkC11(c *core.Ctx) {
 		}
 		if i == 3 {
 			// growing large payloads from one sender, the last one just under the frame limit
-			sc = &loopScenario{Senders: 1, PerSender: 5, Sizes: []int{1 << 20, 2 << 20, 5 << 19, 3 << 20, 4<<20 - 512}, SizeSeq: true}
+			sc = &loopScenario{Senders: 1, Sizes: []int{1 << 20, 2 << 20, 5 << 19, 3 << 20, -65, -2, -1}, PerSender: 7, SizeSeq: true}
 		}
 		if i == 0 {
 			// one scenario keeps its connections open and idle for a while before using them again
